@@ -61,6 +61,23 @@ Theorem C14_subset : forall ivs times t1 t2,
 Proof. exact subset_spec. Qed.
 Print Assumptions C14_subset.
 
+(* draw_ontimes with OPTIONAL window bounds, as the code reads them: a bound is missing only
+   when it is None (a bound equal to 0 is a bound); a missing bound is replaced by the first
+   lower / last upper edge.  For every combination the drawn time lies in on-time inside the
+   effective window. *)
+Theorem C14_draw_optional_bounds : forall ivs (t_min t_max : option Z) w,
+  wf ivs -> ivs <> [] ->
+  let lo := match t_min with Some v => v | None => match ivs with (l, _) :: _ => l | [] => 0 end end in
+  let hi := match t_max with Some v => v | None => last (map snd ivs) 0 end in
+  match t_min, t_max with
+  | None, None => 0 <= w < livetime ivs ->
+      exists x, draw_opt ivs None None w = Ok x /\ In_on ivs x
+  | _, _ => lo <= hi -> 0 <= w < measure (clip ivs lo hi) ->
+      exists x, draw_opt ivs t_min t_max w = Ok x /\ In_on ivs x /\ lo <= x < hi
+  end.
+Proof. exact draw_opt_spec. Qed.
+Print Assumptions C14_draw_optional_bounds.
+
 (* non-vacuity: a concrete list with a touching pair, a zero-length interval
    and gaps meets the hypotheses; windows in a gap / before / after give []. *)
 Example C14_nonvacuous :
@@ -69,5 +86,6 @@ Example C14_nonvacuous :
   /\ between ivs 22 28 = Ok [] /\ between ivs 0 5 = Ok [] /\ between ivs 110 120 = Ok []
   /\ between ivs 15 95 = Ok [(15, 20); (30, 50); (50, 60); (80, 80); (90, 95)]
   /\ upto ivs 95 = Ok 45 /\ is_on ivs 50 = true /\ is_on ivs 80 = false
-  /\ draw ivs (Some (15, 95)) 34 = Ok 59.
+  /\ draw ivs (Some (15, 95)) 34 = Ok 59
+  /\ draw_opt ivs (Some 0) None 3 = Ok 13 /\ draw_opt ivs None (Some 0) 0 = Err IndexError.
 Proof. cbv zeta. repeat split; try (vm_compute; reflexivity); try (cbn; lia); discriminate. Qed.
